@@ -72,8 +72,8 @@ prop(
 
 prop(
     "C11",
-    lean_modules=["BloomVerif.Lemmas.Build", "BloomVerif.Props.C02", "BloomVerif.Props.C11"],
-    technique="Lean 4 proof over any valid grouping (rows preserved as a list, coverage preserved, query equality / superset via C02 and minmax monotonicity) + differential checks of real merges",
+    lean_modules=["BloomVerif.Lemmas.Build", "BloomVerif.Bridge.MergeMM", "BloomVerif.Props.C02", "BloomVerif.Props.C11", "BloomVerif.Props.C11Gen"],
+    technique="Lean 4 proof over any valid grouping (rows preserved as a list, coverage preserved, query equality / superset via C02 and minmax monotonicity), with mergeMinMaxIndexes regenerated from merge.go and proved equal to the model's union of minmax maps (Bridge/MergeMM) + differential checks of real merges",
     design_ref="DESIGN.md section 4 C11",
     text="Machine-checked theorems, for any grouping of the source blocks into non-empty groups sharing partition ID and minmax key set (so independent of the greedy order): the stored row list is unchanged; every row stays in a "
          "block with its partition ID whose ranges cover it; a query without prefilter returns exactly the matching rows of the unchanged row list; a prefiltered query keeps every row of its pre-merge answer and returns only matching rows. "
